@@ -1,7 +1,7 @@
 (* C07 -- Task slots are deadlock-free and work-conserving.  Model: Slots (see PropC06). *)
 From Coq Require Import List Arith Lia Bool String.
 Import ListNotations.
-From SP Require Import Skel Gen Expected Slots Slots7 SlotsTop.
+From SP Require Import Skel Gen Expected ExpectedCones Slots Slots7 SlotsTop.
 
 Theorem C07_code_conforms :
   skel_eqb skel_Workflow_IncConcurrentTasks exp_Workflow_IncConcurrentTasks
@@ -61,9 +61,20 @@ Theorem C07_no_mutex_refuted :
              /\ (exists t, nth_error (tasks s') 0 = Some t /\ st t <> Finished).
 Proof. eexists. split; [vm_compute; reflexivity|]. repeat split; try (vm_compute; reflexivity). eexists. split; [vm_compute; reflexivity|discriminate]. Qed.
 
+(* T1, call cones: every function of scipipe that the functions above can reach (calls and function values, interface calls
+   resolved to every implementation) is one the models were compared with -- a helper that is new to the cone, or a new call
+   of an old one, changes a list (the lists are regenerated from /repo on every run; ExpectedCones.v holds the accepted ones) *)
+Theorem C07_cone_conforms :
+  strs_eqb cone_Workflow_IncConcurrentTasks exp_cone_Workflow_IncConcurrentTasks
+  && strs_eqb cone_Workflow_DecConcurrentTasks exp_cone_Workflow_DecConcurrentTasks
+  && strs_eqb cone_Task_Execute exp_cone_Task_Execute
+  && strs_eqb cone_Process_Run exp_cone_Process_Run = true.
+Proof. vm_compute. reflexivity. Qed.
+
 Print Assumptions C07_code_conforms.
 Print Assumptions C07_progress.
 Print Assumptions C07_work_conserving.
 Print Assumptions C07_work_conserving_general.
 Print Assumptions C07_oversize_rejected_code.
 Print Assumptions C07_no_mutex_refuted.
+Print Assumptions C07_cone_conforms.
